@@ -57,7 +57,7 @@ def run_trace(spec):
     old = asyncio.open_connection
     asyncio.open_connection = fake_open
     try:
-        with watchdog(30):
+        with watchdog(120):
             c = RecClient(FIXProtocol44(), "A", "B", Journaler(), "h", 1, heartbeat_period=spec["H"])
 
             def obs():
